@@ -17,6 +17,7 @@ VERIF = os.path.dirname(os.path.dirname(os.path.abspath(__file__)))
 REPO_SRC = os.environ.get("PYUBX2_SRC", "/repo/src")
 OUT = os.path.join(VERIF, "lean", "Ubx", "Generated", "Code.lean")
 FACTS = os.path.join(VERIF, "work", "code_facts.json")
+BINDINGS = os.path.join(VERIF, "tools", "expected_bindings.json")
 
 # module aliases whose attribute access is a plain global name (`ubt.U1` is `U1`, `ube.UBXTypeError` is `UBXTypeError`)
 MODULE_ALIASES = {"ube", "ubt", "ubcdb", "nme", "rte", "uh"}
@@ -519,6 +520,30 @@ def main():
         path = os.path.join(REPO_SRC, "pyubx2", fname)
         if fname not in trees:
             trees[fname] = ast.parse(open(path, newline="").read().replace("\r\n", "\n"))
+    # what the global names used by the translated functions are bound to in the live modules (the hosts answer
+    # `calc_checksum(…)`, `UBXMessage(…)`, `ube.UBXParseError` … by the model's function / class *of that name*: that is
+    # only right while the name still denotes the library's own object of that name)
+    sys.path.insert(0, REPO_SRC)
+    import importlib
+    import builtins
+    import inspect
+    mods = {f: importlib.import_module("pyubx2." + f[:-3]) for f in trees}
+    assert os.path.realpath(list(mods.values())[0].__file__).startswith(os.path.realpath(REPO_SRC))
+
+    def describe(mod, name):
+        if not hasattr(mod, name):
+            return "builtin" if hasattr(builtins, name) else "unbound"
+        o = getattr(mod, name)
+        if inspect.ismodule(o):
+            return "module " + o.__name__
+        if inspect.isfunction(o) or inspect.isclass(o) or inspect.isbuiltin(o):
+            return f"{getattr(o, '__module__', '?')}.{getattr(o, '__qualname__', '?')}"
+        return "value"
+    expected = {}
+    if os.path.exists(BINDINGS):
+        expected = json.load(open(BINDINGS))
+    facts["bindings"] = {}
+    for fname, qual in FUNCS:
         ident = lean_ident(qual)
         try:
             node = func_node(trees[fname], qual)
@@ -549,6 +574,14 @@ def main():
         tr = Tr(list(allp) + sorted(stored), a.kwarg.arg if a.kwarg else None, vl)
         tr.eval_fstrings = qual in EVAL_FSTRINGS
         try:
+            free = sorted({x.id for x in ast.walk(node) if isinstance(x, ast.Name) and isinstance(x.ctx, ast.Load)}
+                          - set(allp) - stored - {"self"})
+            for g in free:
+                d = describe(mods[fname], g)
+                facts["bindings"].setdefault(fname, {})[g] = d
+                want = expected.get(fname, {}).get(g)
+                if want is not None and want != d:
+                    raise Untranslatable(f"{qual}: the name `{g}` is bound to {d}, not to {want}")
             body = tr.B(node.body)
             legend = ", ".join(f"{k}={hex(v)}" for k, v in sorted(tr.names.items()))
             out.append(f"/-- `{qual}` ({fname}:{node.lineno})\n    names: {legend} -/")
@@ -560,10 +593,6 @@ def main():
             facts["untranslatable"][qual] = str(e)
             out.append(f"/-- `{qual}`: outside the translatable fragment: {e} -/\ndef {ident} : Fn := {{ params := [], body := [] }}")
     # module-level constants referenced by the translated functions, from the live modules
-    sys.path.insert(0, REPO_SRC)
-    import importlib
-    mods = {f: importlib.import_module("pyubx2." + f[:-3]) for f in trees}
-    assert os.path.realpath(list(mods.values())[0].__file__).startswith(os.path.realpath(REPO_SRC))
 
     def gval(v):
         if v is None:
